@@ -35,6 +35,23 @@ pub fn far_deadline() -> Instant {
     Instant::now() + Duration::from_secs(3600 * 24 * 365)
 }
 
+/// A deadline in the PAST.  Under an installed virtual clock the value of the Instant is
+/// irrelevant to `deadline_exceeded` (the clock decides), so this is as good a dummy as a far
+/// future one — but code that bypasses the deadline check and reads the real clock sees an
+/// expired deadline, i.e. the situation "time ran out right after the last check".
+pub fn past_deadline() -> Instant {
+    Instant::now().checked_sub(Duration::from_secs(3600)).unwrap_or_else(Instant::now)
+}
+
+/// far-future or past dummy, chosen by `parity`
+pub fn dummy_deadline(parity: usize) -> Instant {
+    if parity % 2 == 0 {
+        far_deadline()
+    } else {
+        past_deadline()
+    }
+}
+
 pub fn run_entry<O, N, D>(
     entry: Entry,
     alg: Algorithm,
